@@ -1,5 +1,6 @@
 """C38 Exported states are restored exactly on import (Exporter vtu/pvd round trip, time information)."""
 import contextlib
+import io
 import json
 import os
 import shutil
@@ -53,7 +54,7 @@ EXPLANATION = ("FULL for the permutation logic: model = grouping of cells by typ
 ASSUMPTIONS = ["cell values are dyadic rationals (binary64 exact) so that the ascii writer and the rational model agree exactly",
                "times passed to write_pvd increase with the time-step index (as in a simulation)"]
 
-SHIFT = 4096  # values written at the j-th exported step are base + SHIFT*(j+1)
+SHIFT = 4096  # values written at the j-th exported step (j = 0, 1, ..) are base + SHIFT*j
 ROUTES = ("vtu", "mdg_pvd", "pvd")
 KEY_POLY = "polyhedron-blocks-not-in-ascending-node-count"
 KEY_PVD_SORT = "pvd-latest-step-chosen-by-string-order"
@@ -223,7 +224,7 @@ def _base_data(case, ents):
 
 def _arrays(case, part_s, part_v, j, flat_vec):
     """numpy arrays handed to the exporter for one entity at the j-th exported step"""
-    off = SHIFT * (j + 1)
+    off = SHIFT * j
     s = np.array([float(x) + off for x in part_s])
     n, nd = len(part_v), case["nd"]
     A = np.array([[float(col[i]) + off for col in part_v] for i in range(nd)]).reshape(nd, n)
@@ -233,11 +234,11 @@ def _arrays(case, part_s, part_v, j, flat_vec):
 
 
 def _exp_s(part_s, j):
-    return [frac(x + SHIFT * (j + 1)) for x in part_s]
+    return [frac(x + SHIFT * j) for x in part_s]
 
 
 def _exp_v(part_v, j):
-    return [frac(x + SHIFT * (j + 1)) for col in part_v for x in col]
+    return [frac(x + SHIFT * j) for col in part_v for x in col]
 
 
 # ----------------------------------------------------------------------------- the real code, once per case
@@ -303,10 +304,10 @@ def _read_imported(mdg, ents):
 def _run(case):
     k = _case_key(case)
     if k not in _CACHE:
-        if len(_CACHE) > 4:
+        if len(_CACHE) > 5000:
             _CACHE.clear()
-        with warnings.catch_warnings():
-            warnings.simplefilter("ignore")
+        with warnings.catch_warnings(), contextlib.redirect_stderr(io.StringIO()), contextlib.redirect_stdout(io.StringIO()):
+            warnings.simplefilter("ignore")  # meshio's ascii warning, geometry warnings of the hand-built grids
             with _workdir() as d:
                 _CACHE[k] = _run_real(case, d)
     return _CACHE[k]
@@ -355,8 +356,8 @@ def _run_real(case, folder):
              "types": [c.type for c in geom.connectivity]}
         try:
             m = meshio.read(fname(kind, d, steps[last]))
-            r["s_blocks"] = [[frac(x - SHIFT * (last + 1)) for x in np.asarray(b).ravel()] for b in m.cell_data["s"]]
-            r["v_blocks"] = [[[frac(x - SHIFT * (last + 1)) for x in row] for row in np.asarray(b).reshape(len(b), -1)] for b in m.cell_data["v"]]
+            r["s_blocks"] = [[frac(x - SHIFT * last) for x in np.asarray(b).ravel()] for b in m.cell_data["s"]]
+            r["v_blocks"] = [[[frac(x - SHIFT * last) for x in row] for row in np.asarray(b).reshape(len(b), -1)] for b in m.cell_data["v"]]
         except Exception as e:  # meshio refuses the file (finding: polyhedron block order)
             r["s_blocks"] = r["v_blocks"] = {"err": type(e).__name__, "msg": str(e)[:200]}
         rec["dims"].append(r)
@@ -462,7 +463,7 @@ def impl_run(case):
         imp = {}
         for route in ROUTES:
             got = rec["routes"][route]["imp"][k]
-            sub = lambda part: None if part is None else [frac(Fraction(x) - SHIFT * (last + 1)) for x in part]
+            sub = lambda part: None if part is None else [frac(Fraction(x) - SHIFT * last) for x in part]
             imp[route] = {"s": [sub(p) for p in got["s"]], "v": [sub(p) for p in got["v"]]}
         dims.append({"kind": r["kind"], "dim": r["dim"], "cell_ids": r["cell_ids"], "sizes": r["sizes"],
                      "s_blocks": r["s_blocks"], "v_blocks": r["v_blocks"], "imp": imp})
@@ -533,10 +534,10 @@ def oracle(case):
                 for e, (w, g) in enumerate(zip(want[k][name], info["imp"][k][name])):
                     if w != g:
                         bad = None if g is None else [i for i, (a, b) in enumerate(zip(w, g)) if a != b][:4]
-                        if poly and k == "sd3" and g is not None and sorted(map(Fraction, g)) != sorted(map(Fraction, w)):
-                            key = KEY_POLY  # the values of another subdomain arrived here
-                        elif poly and k == "sd3" and g is None and known_poly_err:
-                            continue
+                        if poly and k == "sd3" and g is None and known_poly_err:
+                            continue  # already reported: meshio refused the file
+                        if poly and k == "sd3":
+                            key = KEY_POLY  # the values of another block arrived here
                         else:
                             key = f"roundtrip-differs-{route}-{k}-{name}"
                         add(f"{route}: entity {e} of {k}, field {name}: written {w[:6]}.. imported {None if g is None else g[:6]}.. (first differing positions {bad})", key)
@@ -720,16 +721,16 @@ def shrink_candidates(case):
     for i in range(len(ex)):
         if len(ex) > 1 or case["base"] is not None:
             yield dict(case, extra=ex[:i] + ex[i + 1:])
-    if case["base"] is not None and ex:
-        yield dict(case, base=None)
+    if case["base"] is not None:
+        yield dict(case, base=None, extra=ex if ex else [{"t": "cart", "n": [2]}])
     for i, s in enumerate(ex):
         if s["t"] in ("strip", "prism") and len(s["cells"]) > 1:
             for j in range(len(s["cells"])):
                 yield dict(case, extra=ex[:i] + [dict(s, cells=s["cells"][:j] + s["cells"][j + 1:])] + ex[i + 1:])
     if len(case["steps"]) > 1:
         yield dict(case, steps=case["steps"][1:], times=None if case["times"] is None else case["times"][1:])
-    if len(case["time"]["writes"]) > 1 and case["time"]["index"] == -1:
-        yield dict(case, time=dict(case["time"], writes=case["time"]["writes"][1:]))
+    if len(case["time"]["writes"]) > 1 or case["time"]["index"] != -1:
+        yield dict(case, time={"writes": case["time"]["writes"][-1:], "index": -1})
     for k, v in (("sep_const", False), ("binary", True), ("style", "tuple"), ("flat_vec", False), ("nd", 2)):
         if case[k] != v:
             yield dict(case, **{k: v})
